@@ -1,6 +1,7 @@
 import MimeModel.Model.Detect
 import MimeModel.Model.MediaType
 import MimeModel.Spec.Utf8
+import MimeModel.Spec.Json
 /-
   Executable specification oracles used by the driver on the *implementation's*
   results (independent of the hand model).  Each returns "" when the clause holds
@@ -60,6 +61,59 @@ def zipSpec (chain : List (Bytes × Bytes)) (names : List Bytes) : String :=
   else if (leaf == docx || leaf == xlsx || leaf == pptx || leaf == jar || leaf == apk) && parent != zip then "SPEC C19:parent-not-zip"
   else if !(famAll "word/" || famAll "xl/" || famAll "ppt/" || famAll "META-INF/MANIFEST.MF" || apkMarkers.any famAll)
           && first != ofString "mimetype" && leaf != zip then "SPEC C19:no-marker-not-plain-zip"
+  else ""
+
+/-- split on LF, dropping one trailing CR per line -/
+def splitLines (b : Bytes) : List Bytes :=
+  let rec go : Bytes → Bytes → List Bytes → List Bytes
+    | [], cur, acc => (cur.reverse :: acc).reverse
+    | c :: cs, cur, acc => if c == 0x0A then go cs [] (cur.reverse :: acc) else go cs (c :: cur) acc
+  (go b [] []).map (fun l => if l.getLast? == some 0x0D then l.dropLast else l)
+
+/-- the complete lines of the examined header: in truncated mode the text after the last
+    newline is an incomplete line and does not count; a final empty piece is no line -/
+def completeLines (h : Bytes) (truncated : Bool) : List Bytes :=
+  let ls := splitLines h
+  let ls := if truncated then ls.dropLast else (if ls.getLast? == some [] then ls.dropLast else ls)
+  ls
+
+def isBlankLine (l : Bytes) : Bool := l.all J.ws
+
+/-- a complete JSON value with nothing but white space around it -/
+def lineValue (l : Bytes) : Option J.JVal :=
+  match J.value false (J.fuelFor l) l with
+  | .ok v r => if (J.skipWs r).isEmpty then some v else none
+  | _ => none
+
+def isContainer : J.JVal → Bool
+  | .arr _ => true | .obj _ => true | _ => false
+
+/-- C13 oracle for NDJSON -/
+def ndjsonSpec (kind : String) (raw : Bytes) (lim : Nat) (nd : Bool) (leafIsNd : Bool) (earlier : Bool) : String :=
+  let h := header raw lim
+  let truncated := lim != 0 && h.length ≥ lim
+  let ls := completeLines h truncated
+  let vals := ls.map lineValue
+  let allOk := (ls.zip vals).all (fun p => isBlankLine p.1 || p.2.isSome)
+  let hasCont := vals.any (fun v => match v with | some x => isContainer x | none => false)
+  if nd && !(ls.length ≥ 2 && allOk && hasCont) then "SPEC C13:ndjson-reported-for-malformed-stream"
+  else if kind == "nd-ok" && (ls.filter (fun l => !isBlankLine l)).length ≥ 2 && allOk && hasCont && !earlier && !leafIsNd then "SPEC C13:ndjson-stream-not-reported"
+  else ""
+
+def countFields (l : Bytes) (delim : Nat) : Nat := (l.filter (· == delim)).length + 1
+
+/-- C13 oracle for quote-free CSV/TSV -/
+def svSpec (kind : String) (want : String) (raw : Bytes) (lim : Nat) (verdict : Bool) (leafIs : Bool) (earlier : Bool) (delim : Nat) : String :=
+  let h := header raw lim
+  let truncated := lim != 0 && h.length ≥ lim
+  let ls := (completeLines h truncated).filter (fun l => !l.isEmpty && l.head? != some 0x23)
+  let quoteFree := !(h.contains 0x22)
+  let counts := ls.map (fun l => countFields l delim)
+  let rect := match counts with
+    | [] => false
+    | c :: cs => c ≥ 2 && cs.all (· == c)
+  if quoteFree && verdict && !(rect && ls.length ≥ 2) then s!"SPEC C13:{want}-reported-for-ragged-table"
+  else if kind == want ++ "-ok" && quoteFree && rect && ls.length ≥ 2 && !earlier && !leafIs then s!"SPEC C13:{want}-table-not-reported"
   else ""
 
 def asciiTextByte (b : Nat) : Bool :=
